@@ -29,8 +29,6 @@ def regions_of(m):
     """known-finding regions by predicate on the request fields"""
     fc = m['fc']
     out = []
-    if fc == 5 and m['value'] not in (0, 0xFF00):
-        out.append('fc5-illegal-value-accepted')
     if fc == 15:
         q = m.get('count', len(m['bits']))
         bc = m.get('byte_count', (len(m['bits']) + 7) // 8)
@@ -123,12 +121,6 @@ def resync(w, after):
 
 def excused(run, m, regs, kinds, exc, got, before, after, w, case):
     fc = m.get('fc')
-    if 'fc5-illegal-value-accepted' in regs:
-        # executed as OFF: normal response (or 02 when the address is also invalid); only the addressed coil may change, only to OFF
-        changed = _changed(before, after, w.uid)
-        ok_change = changed <= {('c', m['address'])} and all(after[w.uid]['c'][a] is False for t, a in changed)
-        if exc is None and ok_change and got is not None and (got[0] == 5 or got == bytes([0x85, 2])):
-            return run.known('fc5-illegal-value-accepted', 'FC5 with a value other than 0x0000/0xFF00 is executed as OFF (or answered 02) instead of exception 03', case)
     if 'fc15-quantity-vs-bytecount' in regs:
         bc = m.get('byte_count', (len(m['bits']) + 7) // 8)
         changed = _changed(before, after, w.uid)
